@@ -29,10 +29,10 @@ import os
 #  switched off when a bandwidth profile exists) lifted; the stored input is kept as regress-bw-increase-crosstraffic.json.)
 #   ti-pstate        cpu/optim:TI ignores a pstate change for the executions already running.  Excluded: no TI configuration when the
 #                    workload changes a pstate.
-#   prio-while-suspended  Exec::update_priority on a SUSPENDED execution re-enables its LMM variable (Lazy, Full: it runs although suspended; TI
-#                    keeps it suspended), and the later resume() then freezes it for good under Lazy.  Excluded: no priority change
-#                    inside a suspension window (bound changes inside a window are generated).
-OPEN = set(x for x in os.environ.get("VF_C19_OPEN", "ti-profile-start,ti-pstate,prio-while-suspended").split(",") if x)
+# (prio-while-suspended, fixed by 81301d92b2 + c9c06178d1, exclusion lifted: Exec::update_priority on a SUSPENDED execution re-enabled its
+#  LMM variable (Lazy, Full: it ran although suspended; TI kept it suspended), and the later resume() then froze it for good under Lazy.
+#  Was excluded by generating no priority change inside a suspension window.)
+OPEN = set(x for x in os.environ.get("VF_C19_OPEN", "ti-profile-start,ti-pstate").split(",") if x)
 MARGIN = 1e-6      # a suspend / resume closer than this to the start or the completion of its activity makes the case tie-prone: not decided
 
 
@@ -304,13 +304,19 @@ class C19(core.Prop):
             "fat-pipe / split-duplex links, routes of 1-3 links): 1-4 actors, each a sequence of pauses, asynchronous execs (bounds, priorities, "
             "threads, local or remote) and communications (raw/CM02/LV08/SMPI, cross-traffic on/off) waited at once or at the end, set_pstate; "
             "while an exec runs its owner may suspend and resume it, change its priority (Exec::update_priority) or its bound (Action::set_bound); "
-            "1 case in 3 has availability profiles (host speed, link bandwidth; periodic or not). Each case is run under the default configuration "
+            "1 case in 3 has availability profiles (host speed, link bandwidth; periodic or not). 1 case in 3 comes from the 'straddle' family: an "
+            "execution on a single-core host with a periodic speed profile is suspended just before one (or several) of the profile's events "
+            "and resumed just after, then runs alone for a while, TI always among the compared configurations; bound (and priority) "
+            "changes are also made WHILE an execution is suspended. Each case is run under the default configuration "
             "(cpu/optim:Lazy, network/optim:Lazy) and under 2-3 other LEGAL combinations of cpu/optim in {Lazy, Full, TI} x network/optim in "
             "{Lazy, Full} x cpu|network/maxmin-selective-update in {default, yes, no} (Lazy with selective update off is refused by SimGrid; TI only "
             "when the case keeps TI's preconditions: single-core hosts, no bound, no threads, periodic speed profiles whose first point is at "
             "date 0 and whose last value is the first one). Oracle (differential): every operation of every actor (hence every activity "
             "completion) returns at the same date as under the default configuration, within 2 x precision/timing + 1e-12 x date, with the same "
             "outcome; a configuration that crashes or never completes an activity that the other completes is a violation. "
+            "Second clause (absolute, so that a defect common to all update algorithms is visible): an unbounded single-thread execution that "
+            "is alone on its host all its life (no pstate change) completes, in the reference run, at the date where the integral of speed x "
+            "availability over the time it is not suspended equals its flops (1e-9 relative + the same quanta). "
             "Cases where a suspend or a resume lands within 1e-6 (relative) of the completion of its activity are tie-prone (discontinuous "
             "outcome) and counted invalid. Non-trivial: some activity sees >= 3 changes of its granted rate, or a profile is attached to a "
             "resource whose activities change rate.")
@@ -318,8 +324,7 @@ class C19(core.Prop):
                    "the default configuration is the reference; a defect common to all update algorithms is not visible to this differential "
                    "(C20/C21 look at absolute values)",
                    "known findings excluded by construction (counted in known/C19.json, replayed from replays/C19): TI with a speed profile "
-                   "whose first point is not at date 0; TI with a pstate change; a bandwidth profile together with cross-traffic (penalty "
-                   "corruption, abort)",
+                   "whose first point is not at date 0; TI with a pstate change",
                    "scenarios run with the interpreter's speed_change record off (\"quiet\":[\"onoff\"]): Host::get_available_speed() segfaults "
                    "under cpu/optim:TI on a host without speed profile (known finding, replayed)",
                    "bound changes of a running execution go through kernel::resource::Action::set_bound (what VirtualMachineImpl does); the S4U "
@@ -535,6 +540,10 @@ class C19(core.Prop):
         feature = ""
         if case.get("host_info"):
             feature = ":host-info"
+        elif case.get("extra_actors"):
+            feature = ":actor-resume"
+        elif any(c2["do"] == "prio" for a in case["actors"] for st_ in a["steps"] for c in st_.get("ctl", []) for c2 in c.get("inside", [])):
+            feature = ":prio-while-suspended"
         elif any("bw_profile" in l for l in case["platform"].get("links", [])) and any(l.get("lat", 0) > 0 for l in case["platform"].get("links", [])):
             feature = ":bw-profile+latency"
         pfeat = ":pstate-change" if any(st_["op"] == "pstate" for a in case["actors"] for st_ in a["steps"]) else ""
